@@ -44,7 +44,7 @@ ExpectRead(lx, it) ==
          ELSE IF it.bit >= 8 * es THEN Unspec
          ELSE Exp("valid", MkB(MemBit(mem, r.off, it.bit) = 1), BoolName, r.key, r.off, es))
     ELSE LET desc == TypeDesc(P, r.t)
-             d == DecRep(desc, it.count, mem, r.off + 1, TRUE)
+             d == DecRep(desc, it.count, mem, r.off + 1, r.off + 1)
          IN IF d.st # "ok" THEN Unspec
             ELSE Exp("valid", IF it.count = 1 THEN d.val.l[1] ELSE d.val,
                      IF it.count = 1 THEN TypeName(P, r.t) ELSE WithCount(TypeName(P, r.t), it.count), r.key, r.off, es * it.count)
